@@ -55,6 +55,7 @@ def run(ctx):
     malsec.multiply_impls(ctx, facts, "WHO-multiply")
     malsec.field_transport(ctx, facts, "FIELDS-block")
     tables(ctx, facts)
+    fiat_shamir(ctx, facts)
     ctx.assume("Lagrange interpolation identities and the u/v table algebra are not decided")
 
 
@@ -295,3 +296,66 @@ def tables(ctx, facts):
     ctx.floor("WIRE-tables", "VerifierTableIndices sites", n, 2)
     pr = [1 for bb, idx, s in vb.iter_assigns() if s["r"]["k"] == "agg" and s["r"].get("adt", "").endswith("ProverTableIndices") and "get_field_values_prover" in str(flow.expr_of(vb, s["r"]["ops"][0]))]
     ctx.ob("WIRE-tables", "prover", bool(pr), "prover tables are built from get_field_values_prover", site_of(vb))
+
+
+# ---------------------------------------------------------------------------------------------
+def fiat_shamir(ctx, facts):
+    """Challenges must lie outside the interpolation domain of the proof they are used with (otherwise p(r) is one of
+    the prover's own points and the check is vacuous), and both verifiers and the prover must hash the same material
+    in the same order (otherwise honest proofs are rejected)."""
+    ctx.rule("EXCLUDE-domain: the prover draws its challenge with hash_to_field(hash(proof share for the left verifier), hash(proof share for the right verifier), L) where L is the generator's own recursion factor; the verifiers draw the challenges of both provers as hash_to_field(left hash, right hash, exclude) over zip(zip(hashes_a, hashes_b), once(FRF).chain(repeat(CRF))) with FRF / CRF the recursion factors of the first / compressed generator, the left-prover list pairing (received, own) and the right-prover list (own, received)")
+    first, comp = gen_params(facts, "FirstProofGenerator"), gen_params(facts, "CompressedProofGenerator")
+    root = "protocol::ipa_prf::validation_protocol::validation::BatchToVerify::generate_challenges"
+    b = malsec.async_body(facts, root)
+    if b is None or first is None or comp is None:
+        return ctx.missing("EXCLUDE-domain", "BatchToVerify::generate_challenges / generator aliases")
+    ctx.count(bodies=3)
+    FRF, CRF = first[0], comp[0]
+    chains = flow.find_calls(b, re.compile(r"Iterator::chain$"))
+    def cval(e):
+        e = flow.fold(e)
+        while e[0] == "call" and re.search(r"(Result::<T, E>::unwrap|TryFrom::try_from|From::from|Into::into)$", e[1]):
+            e = e[2][0]
+        if e[0] == "const" and isinstance(e[1], int):
+            return e[1]
+        if e[0] == "const" and isinstance(e[1], str):
+            return facts.const_val(e[1])
+        return None
+    good = len(chains) == 2
+    details = []
+    for bb, t in chains:
+        a0, a1 = (flow.expr_of(b, x, max_depth=10) for x in t["args"])
+        ok = a0[0] == "call" and a0[1].endswith("iter::once") and a1[0] == "call" and a1[1].endswith("iter::repeat")
+        x, y = (cval(a0[2][0]), cval(a1[2][0])) if ok else (None, None)
+        details.append((x, y))
+        good = good and ok and x == FRF and y == CRF
+    ctx.ob("EXCLUDE-domain", "verifier:exclude-sequence", good, f"once({FRF}).chain(repeat({CRF})) for both provers" if good else f"the excluded ranges used by the verifiers are {details}, expected (first {FRF}, then {CRF}) for both provers: a challenge may fall inside the interpolation domain of the proof it is used with", site_of(b, chains[0][0]) if chains else site_of(b))
+    # pairing of hashes
+    zips = [(bb, t) for bb, t in flow.find_calls(b, re.compile(r"Iterator::zip$")) if "Iterator::chain" not in str(flow.expr_of(b, t["args"][1], max_depth=4))]
+    def src(e):
+        s = str(e)
+        d = "Left" if "'Left'" in s else ("Right" if "'Right'" in s else "?")
+        return ("own-" + d) if "generate_hashes" in s else ("received" if "unwrap" in s or "try_join" in s else "?")
+    pairs = []
+    for bb, t in zips:
+        a0, a1 = (flow.expr_of(b, x, max_depth=12) for x in t["args"])
+        pairs.append((src(a0), src(a1)))
+    okp = sorted(pairs) == sorted([("received", "own-Left"), ("own-Right", "received")])
+    ctx.ob("EXCLUDE-domain", "verifier:hash-order", okp, "left prover: (received, own); right prover: (own, received)" if okp else f"the two hash lists are paired as {pairs}: the verifiers derive other challenges than the prover (honest proofs fail) or the same hash is used twice", site_of(b, zips[0][0]) if zips else site_of(b))
+    cl = [x for x in facts.tree(root) if not x.coroutine and flow.find_calls(x, re.compile(r"hashing::hash_to_field$"))]
+    okc = len(cl) == 2 and all([flow.expr_of(x, a) for a in flow.find_calls(x, re.compile(r"hashing::hash_to_field$"))[0][1]["args"]] == [("arg", 2, 0, 0), ("arg", 2, 0, 1), ("arg", 2, 1)] for x in cl)
+    ctx.ob("EXCLUDE-domain", "verifier:challenge=h(left, right, exclude)", okc, "hash_to_field(pair.0, pair.1, exclude) in both lists" if okc else "a challenge is not hash_to_field(first hash, second hash, the zipped exclude value)", site_of(cl[0]) if cl else site_of(b))
+    # prover
+    pb = facts.bodies.get("protocol::ipa_prf::malicious_security::prover::ProofGenerator::<F, L, P, M>::gen_challenge_and_recurse")
+    if pb is None:
+        return ctx.missing("EXCLUDE-domain", "ProofGenerator::gen_challenge_and_recurse")
+    h = flow.find_calls(pb, re.compile(r"hashing::hash_to_field$"))
+    okh = False
+    if len(h) == 1:
+        a = [flow.expr_of(pb, x, max_depth=10) for x in h[0][1]["args"]]
+        l_ok = a[0][0] == "call" and a[0][1].endswith("compute_hash") and ("arg", 1) in malsec._leaves(a[0], "arg")
+        r_ok = a[1][0] == "call" and a[1][1].endswith("compute_hash") and ("arg", 2) in malsec._leaves(a[1], "arg")
+        ex = str(a[2])
+        e_ok = re.search(r"Ty\(usize, L/#1\)|'L'|, L/", ex) is not None or "L" in re.findall(r"Ty\(usize, (\w+)/", ex)
+        okh = l_ok and r_ok and e_ok
+    ctx.ob("EXCLUDE-domain", "prover:challenge=h(left share, right share, L)", okh, "hash_to_field(hash(proof_left), hash(proof_right), L)" if okh else "the prover's challenge is not derived from (hash of the left share, hash of the right share) with its own recursion factor L excluded", site_of(pb, h[0][0]) if h else site_of(pb))
